@@ -138,7 +138,11 @@ def generic_model(origin, args, reg: Registry):
         if bo in (None, T.Generic, T.Protocol):
             continue
         if isinstance(bo, type) and bo.__module__ not in ('typing', 'collections.abc', 'collections', 'builtins'):
-            raise NotImplementedError(repr(origin))      # generic deriving from a user generic: bases are walked transitively
+            # a user generic as pseudo-superclass is replaced by ITS unerased pseudo-superclasses (walked transitively),
+            # with its own arguments bound: the inner binding of a type variable wins over the outer one
+            bargs = tuple(sub.get(a, a) if isinstance(a, T.TypeVar) else a for a in T.get_args(b))
+            out.extend(generic_model(bo, bargs, reg)[2:])
+            continue
         bp = getattr(b, '__parameters__', ())
         base = b[tuple(sub.get(p, p) for p in bp)] if bp else b
         bm = hint_model(base, reg)
